@@ -26,8 +26,8 @@ const relInterval = "lib/interval"
 
 func init() {
 	register("C06", core.Spec{
-		Decides: "two clauses of C06 for lib/interval. (1) `results never share storage with the operands`: for every exported IntRange method that returns an IntRange (17: Unite, Intersect, Add, Sub, Mul, And, Or, their Try forms, TryLsh, TryQuo, TryRsh) and every return site, each *big.Int that can reach the returned array is nil or was allocated during the call — never a pointer taken from the receiver or the argument, never one held by a package-level variable (one, minusOne, sharedEmptyRange, the smallBitMasks table that bitMask hands out un-copied) and never one of unattributable provenance (map/pool look-ups, unresolved calls); and no function reachable from these methods stores a *big.Int-carrying value (also when wrapped in an interface) into a package-level variable, a map, a channel, through an unattributable address, or passes one to an unresolved callee — so a fresh result is not also retained by the library. Decided by an interprocedural, field-insensitive, flow-insensitive origin analysis on go/ssa whose summaries (origins of results; origins stored through pointer parameters) are computed, not assumed, for every helper (40 functions of the package) and for the math/big functions they call. (2) `reports failure exactly when some pair makes it undefined`: the set of exported (IntRange, bool) operations is exactly the 10 of the table; the 7 total ones report ok=true at every return; for TryLsh and TryRsh (TryQuo) every `ok=false` return is reached only along branches that establish x.Empty()==false and y.ContainsNegative()==true (y.ContainsZero()==true), every other return only along a branch that establishes x.Empty()==true, y.Empty()==true or the predicate false, with x and y never modified; and the three predicates Empty, ContainsNegative, ContainsZero coincide with their set-theoretic definitions on all 36 (infinity, sign, order) configurations of the two bounds — exact, because they observe the bounds only through nil tests, Sign and Cmp, and any other observation is refused as undecided (1b, fresh.words) no function of the package copies a math/big.Int by value , hands a foreign word slice to SetBits or lets the slice returned by Bits escape, so the pointer-level provenance of (1) is also word-level: a distinct result pointer owns its digits",
-		NotDecided: "containment and tightness of the arithmetic: that the interval returned by Add/Sub/Mul/TryQuo/TryLsh/TryRsh/And/Or/Unite/Intersect contains x op y for all members, and is the tightest one — in particular the andMax/orMax bit-filling algorithms, the sign-split case analysis of mulLsh/TryQuo/TryRsh, and the >2^32 shift fallback are not examined at all. Also not decided: interior aliasing (result[0] and result[1] being the same pointer — the property speaks of operands), sharing below the *big.Int pointer (math/big's internal word slices), mutation of an operand's *big.Int in place by the library, panics (`interval: input is too large`, pre-condition failures), and the value of z when ok is false",
+		Decides:    "two clauses of C06 for lib/interval. (1) `results never share storage with the operands`: for every exported IntRange method that returns an IntRange (17: Unite, Intersect, Add, Sub, Mul, And, Or, their Try forms, TryLsh, TryQuo, TryRsh) and every return site, each *big.Int that can reach the returned array is nil or was allocated during the call — never a pointer taken from the receiver or the argument, never one held by a package-level variable (one, minusOne, sharedEmptyRange, the smallBitMasks table that bitMask hands out un-copied) and never one of unattributable provenance (map/pool look-ups, unresolved calls); and no function reachable from these methods stores a *big.Int-carrying value (also when wrapped in an interface) into a package-level variable, a map, a channel, through an unattributable address, or passes one to an unresolved callee — so a fresh result is not also retained by the library. Decided by an interprocedural, field-insensitive, flow-insensitive origin analysis on go/ssa whose summaries (origins of results; origins stored through pointer parameters) are computed, not assumed, for every helper (40 functions of the package) and for the math/big functions they call. (2) `reports failure exactly when some pair makes it undefined`: the set of exported (IntRange, bool) operations is exactly the 10 of the table; the 7 total ones report ok=true at every return; for TryLsh and TryRsh (TryQuo) every `ok=false` return is reached only along branches that establish x.Empty()==false and y.ContainsNegative()==true (y.ContainsZero()==true), every other return only along a branch that establishes x.Empty()==true, y.Empty()==true or the predicate false, with x and y never modified; and the three predicates Empty, ContainsNegative, ContainsZero coincide with their set-theoretic definitions on all 36 (infinity, sign, order) configurations of the two bounds — exact, because they observe the bounds only through nil tests, Sign and Cmp, and any other observation is refused as undecided (1b, fresh.words) no function of the package copies a math/big.Int by value, hands a foreign word slice to SetBits or lets the slice returned by Bits escape, so the pointer-level provenance of (1) is also word-level: a distinct result pointer owns its digits",
+		NotDecided: "containment and tightness of the arithmetic: that the interval returned by Add/Sub/Mul/TryQuo/TryLsh/TryRsh/And/Or/Unite/Intersect contains x op y for all members, and is the tightest one — in particular the andMax/orMax bit-filling algorithms, the sign-split case analysis of mulLsh/TryQuo/TryRsh, and the >2^32 shift fallback are not examined at all. Also not decided: interior aliasing (result[0] and result[1] being the same pointer — the property speaks of operands), sharing of digits that math/big's own methods might introduce (their contract is trusted; fresh.words covers what lib/interval itself can do), mutation of an operand's *big.Int in place by the library, panics (`interval: input is too large`, pre-condition failures), and the value of z when ok is false",
 		Assumptions: []string{
 			"go/ssa, go/cfg, go/types (x/tools v0.29.0) model Go faithfully",
 			"origins are tracked at the granularity of *big.Int pointers; math/big functions are analysed from their SSA bodies when the toolchain's source is loadable (it is here), otherwise big.NewInt is taken as fresh and a (*big.Int) method with one *big.Int result as returning its receiver",
